@@ -45,6 +45,7 @@ type vfClientEnv struct {
 	mu    sync.Mutex
 	files map[int]*File
 	tag   uint64
+	sink  *vfSink // the sink of the WriteTo in progress (to tell an endless stream from a stuck call)
 }
 
 func (e *vfClientEnv) file(slot int) *File {
@@ -284,6 +285,9 @@ func (e *vfClientEnv) do(op vfOp) (res *vfOpResult) {
 			fmt.Sscanf(op.S, "%d,%d", &sink.failAt, &short)
 			sink.short = short != 0
 		}
+		e.mu.Lock()
+		e.sink = sink
+		e.mu.Unlock()
 		res.N, res.Err = f.WriteTo(sink)
 		res.SinkGot = sink.buf.Bytes()
 	case "truncate":
